@@ -12,7 +12,7 @@ import zipfile
 
 from lxml import etree
 
-from odfdo import Document, Paragraph, Style
+from odfdo import Document, Element, Paragraph, Style
 from odfdo.container import Container
 
 from ..engine import digest
@@ -347,6 +347,111 @@ def part_task(task):
     return nev, fails, 2
 
 
+# ------------------------------------------------------------------ generic element clones
+ELEMENT_DOCS = ["example.odt", "frame_image.odp", "simple_table.ods", "toc.odt", "note.odt", "base_shapes.odg", "list.odt", "user_fields.odt", "tracked_changes.odt", "variable.odt", "chart.odt", "background.odp"]
+ELEMENT_MUTATIONS = ["set-attribute", "set-text", "append-child", "clear", "delete-first-child", "set-tail"]
+
+
+def _mutate(e, how):
+    if how == "set-attribute":
+        e.set_attribute("text:style-name", "ZZ-clone-test")
+    elif how == "set-text":
+        e.text = "changed by the clone test"
+    elif how == "append-child":
+        e._Element__element.append(Element.from_tag("<text:span>zz</text:span>")._Element__element)
+    elif how == "clear":
+        e.clear()
+    elif how == "delete-first-child":
+        kids = e.children
+        if kids:
+            e.delete(kids[0])
+        else:
+            e.text = "no child"
+    elif how == "set-tail":
+        e.tail = "tail set on one twin"
+
+
+def element_task(name):
+    """Every element class met in the body / styles of a sample document (first instances of each
+    class, with and without children / tail): clone, birth checks, then each mutation on one twin."""
+    fails = []
+    nev = 0
+    path = str(SAMPLES / name)
+    if not os.path.exists(path):
+        return 0, [], 0
+
+    def fail(cls, oracle, exp, act, symptom, **kw):
+        fails.append({"signature": f"site=Element.clone; class={cls}; symptom={symptom}",
+                      "replay": {"replay_module": "mc.checks.c10", "object": "element", "name": name, "history": [], "oracle": oracle, "expected": str(exp)[:200], "actual": str(act)[:200], **kw}})
+
+    def picks(doc):
+        seen = {}
+        out = []
+        for root in (doc.body, doc.styles.root):
+            for i, e in enumerate(root.get_elements("descendant-or-self::*")):
+                key = (type(e).__name__, bool(e.children), e.tail is not None)
+                if seen.get(key, 0) >= 2:
+                    continue
+                seen[key] = seen.get(key, 0) + 1
+                out.append((root is doc.body, i))
+        return out
+
+    doc0 = Document(path)
+    plist = picks(doc0)
+    classes = set()
+
+    def fetch(doc, in_body, i):
+        root = doc.body if in_body else doc.styles.root
+        return root.get_elements("descendant-or-self::*")[i]
+
+    for in_body, i in plist:
+        doc0 = Document(path)
+        e = fetch(doc0, in_body, i)
+        cname = type(e).__name__
+        classes.add(cname)
+        nev += 1
+        whole_before = etree.tostring((doc0.body if in_body else doc0.styles.root)._Element__element)
+        try:
+            c = e.clone
+            if etree.tostring((doc0.body if in_body else doc0.styles.root)._Element__element) != whole_before:
+                fail(cname, "cloning-is-a-read", "document unchanged", "changed", "cloning-changed-the-document", index=i)
+                continue
+        except Exception as ex:
+            fail(cname, "clone-raises", "no exception", f"{type(ex).__name__}: {ex}", f"raises:{type(ex).__name__}", index=i)
+            continue
+        if type(c) is not type(e):
+            fail(cname, "same-class", cname, type(c).__name__, "clone-of-another-class", index=i)
+        if c.serialize() != e.serialize():
+            fail(cname, "equal-at-birth", e.serialize()[:150], c.serialize()[:150], "clone-differs-at-birth", index=i)
+        # (a clone hangs under a technical root that carries the namespace declarations)
+        if c._Element__element.getroottree().getroot() is e._Element__element.getroottree().getroot():
+            fail(cname, "detached", "a tree of its own", "inside the original's tree", "clone-in-the-original-tree", index=i)
+        if c._Element__element is e._Element__element:
+            fail(cname, "copy", "another element", "the same lxml element", "clone-is-the-original", index=i)
+        for how in ELEMENT_MUTATIONS:
+            for target in ("clone", "orig"):
+                nev += 1
+                doc = Document(path)
+                try:
+                    e = fetch(doc, in_body, i)
+                except IndexError:
+                    continue
+                whole0 = etree.tostring((doc.body if in_body else doc.styles.root)._Element__element)
+                try:
+                    c = e.clone
+                    c0, e0 = c.serialize(with_ns=True), e.serialize(with_ns=True)
+                    _mutate(c if target == "clone" else e, how)
+                except Exception:
+                    continue  # the mutation itself is not defined for this element (judged elsewhere)
+                if target == "clone":
+                    if e.serialize(with_ns=True) != e0 or etree.tostring((doc.body if in_body else doc.styles.root)._Element__element) != whole0:
+                        fail(cname, "original-independent", "original unchanged", how, "original-follows-clone", index=i, mutation=how)
+                else:
+                    if c.serialize(with_ns=True) != c0:
+                        fail(cname, "clone-independent", "clone unchanged", how, "clone-follows-original", index=i, mutation=how)
+    return nev, fails, len(classes)
+
+
 def run(tier, pool):
     base = tempfile.mkdtemp(prefix="odfdo_verif_", dir="/dev/shm" if os.path.isdir("/dev/shm") else None)
     os.environ["MC_TMP"] = base
@@ -369,8 +474,15 @@ def run(tier, pool):
             for a, f, p in pool2.imap(part_task, ptasks):
                 nev += a
                 fails.extend(f)
+            etasks = ELEMENT_DOCS if tier != "quick" else ELEMENT_DOCS[:5]
+            ncls = 0
+            for a, f, p in pool2.imap(element_task, etasks):
+                nev += a
+                fails.extend(f)
+                ncls += p
         return fails, {"evaluations": nev, "states": len(dtasks) + len(ctasks) + len(ptasks), "distinct_nontrivial": nt,
-                       "document_states": len(dtasks), "container_states": len(ctasks), "xmlpart_states": len(ptasks)}
+                       "document_states": len(dtasks), "container_states": len(ctasks), "xmlpart_states": len(ptasks),
+                       "element_clone_documents": len(etasks), "element_classes_cloned": ncls}
     finally:
         shutil.rmtree(base, ignore_errors=True)
 
@@ -379,7 +491,9 @@ def replay(rp):
     base = tempfile.mkdtemp(prefix="odfdo_verif_", dir="/dev/shm" if os.path.isdir("/dev/shm") else None)
     os.environ["MC_TMP"] = base
     try:
-        if rp["object"] == "document":
+        if rp["object"] == "element":
+            n, f, _ = element_task(rp["name"])
+        elif rp["object"] == "document":
             n, f, _ = doc_task((tuple(rp["seed"]), rp["prep"]))
         elif rp["object"] == "container":
             n, f, _ = container_task((rp["kind"], rp["name"], rp["prep"]))
